@@ -11,7 +11,9 @@
 //	R2  any other call into sync or sync/atomic -> simrt.Yield("file:line") inserted before the statement
 //	R3  for k, v := range <map>  -> for _, e := range simrt.Entries(<map>) { k, v, ok := e.KV(); if !ok {continue}; ... }
 //	R4  rv.MapKeys() (reflect.Value) -> simrt.OrderValues(rv.MapKeys())
-//	R5  reflect MapRange, sync.Map.Range, go statements, time.Now/Sleep/After/..., math/rand, os.Getenv: counted only
+//	R5  sync.Map.Range, time.Now/Sleep/After/..., math/rand, os.Getenv: counted only
+//	R6  go f(x) -> simrt.Spawn(func() { f(x) }, site): goroutines started by plush become tasks of the scheduler
+//	R1c chan send / receive / close / range ch / select -> simrt.ChanSend / ChanRecv / ChanClose / Select
 //
 // Exit status: 0 ok, 2 anything else (never 1: 1 is reserved for violations).
 package main
@@ -290,11 +292,212 @@ func lockReceiver(info *types.Info, se *ast.SelectorExpr) ast.Expr {
 	return &ast.UnaryExpr{Op: token.AND, X: x}
 }
 
+func goRewritable(info *types.Info, n *ast.GoStmt) bool {
+	call := n.Call
+	if tv, ok := info.Types[call.Fun]; ok && (tv.IsBuiltin() || tv.IsType()) {
+		return false
+	}
+	if len(call.Args) == 1 {
+		if _, ok := info.TypeOf(call.Args[0]).(*types.Tuple); ok {
+			return false
+		}
+	}
+	return true
+}
+
+func selectRewritable(n *ast.SelectStmt) bool {
+	for _, cs := range n.Body.List {
+		cc, ok := cs.(*ast.CommClause)
+		if !ok {
+			return false
+		}
+		switch st := cc.Comm.(type) {
+		case nil, *ast.SendStmt:
+		case *ast.ExprStmt:
+			if u, ok := ast.Unparen(st.X).(*ast.UnaryExpr); !ok || u.Op != token.ARROW {
+				return false
+			}
+		case *ast.AssignStmt:
+			if len(st.Rhs) != 1 {
+				return false
+			}
+			if u, ok := ast.Unparen(st.Rhs[0]).(*ast.UnaryExpr); !ok || u.Op != token.ARROW {
+				return false
+			}
+		default:
+			return false
+		}
+	}
+	return true
+}
+
+// for v := range ch {B}  ->  for simCh_ := ch; ; { v, ok := simrt.ChanRecv2(simCh_, site); if !ok {break}; B }
+func rewriteChanRange(fset *token.FileSet, n *ast.RangeStmt, tmp *int) ast.Stmt {
+	s := add("R1", fset, n.Pos(), "range over channel")
+	*tmp++
+	chv := ast.NewIdent(fmt.Sprintf("simCh%d_", *tmp))
+	okv := ast.NewIdent(fmt.Sprintf("simOk%d_", *tmp))
+	var pre []ast.Stmt
+	var key ast.Expr = ast.NewIdent("_")
+	if n.Key != nil {
+		key = n.Key
+	}
+	recv := simCall("ChanRecv2", chv, lit(s))
+	if n.Tok == token.ASSIGN && n.Key != nil {
+		pre = append(pre, &ast.DeclStmt{Decl: &ast.GenDecl{Tok: token.VAR, Specs: []ast.Spec{&ast.ValueSpec{Names: []*ast.Ident{okv}, Type: ast.NewIdent("bool")}}}})
+		pre = append(pre, &ast.AssignStmt{Lhs: []ast.Expr{key, okv}, Tok: token.ASSIGN, Rhs: []ast.Expr{recv}})
+	} else {
+		pre = append(pre, &ast.AssignStmt{Lhs: []ast.Expr{key, okv}, Tok: token.DEFINE, Rhs: []ast.Expr{recv}})
+		if id, ok := key.(*ast.Ident); ok && id.Name != "_" {
+			pre = append(pre, &ast.AssignStmt{Lhs: []ast.Expr{ast.NewIdent("_")}, Tok: token.ASSIGN, Rhs: []ast.Expr{ast.NewIdent(id.Name)}})
+		}
+	}
+	pre = append(pre, &ast.IfStmt{Cond: &ast.UnaryExpr{Op: token.NOT, X: okv}, Body: &ast.BlockStmt{List: []ast.Stmt{&ast.BranchStmt{Tok: token.BREAK}}}})
+	return &ast.ForStmt{
+		For:  n.For,
+		Init: &ast.AssignStmt{Lhs: []ast.Expr{chv}, Tok: token.DEFINE, Rhs: []ast.Expr{n.X}},
+		Body: &ast.BlockStmt{Lbrace: n.Body.Lbrace, List: append(pre, n.Body.List...), Rbrace: n.Body.Rbrace},
+	}
+}
+
+// for k, v := range m {B}  ->  for it := simrt.Iter(m); it.Next(); { k, v := it.KV(); B }
+func rewriteMapRange(fset *token.FileSet, n *ast.RangeStmt, tmp *int) ast.Stmt {
+	add("R3", fset, n.Pos(), "range over map")
+	*tmp++
+	it := ast.NewIdent(fmt.Sprintf("simIt%d_", *tmp))
+	key, val := n.Key, n.Value
+	if key == nil {
+		key = ast.NewIdent("_")
+	}
+	if val == nil {
+		val = ast.NewIdent("_")
+	}
+	tok := n.Tok
+	if tok != token.ASSIGN {
+		tok = token.DEFINE
+	}
+	kv := &ast.CallExpr{Fun: &ast.SelectorExpr{X: it, Sel: ast.NewIdent("KV")}}
+	var pre []ast.Stmt
+	isBlank := func(e ast.Expr) bool { id, ok := e.(*ast.Ident); return ok && id.Name == "_" }
+	if !(isBlank(key) && isBlank(val)) {
+		pre = append(pre, &ast.AssignStmt{Lhs: []ast.Expr{key, val}, Tok: tok, Rhs: []ast.Expr{kv}})
+	}
+	return &ast.ForStmt{
+		For:  n.For,
+		Init: &ast.AssignStmt{Lhs: []ast.Expr{it}, Tok: token.DEFINE, Rhs: []ast.Expr{simCall("Iter", n.X)}},
+		Cond: &ast.CallExpr{Fun: &ast.SelectorExpr{X: it, Sel: ast.NewIdent("Next")}},
+		Body: &ast.BlockStmt{Lbrace: n.Body.Lbrace, List: append(pre, n.Body.List...), Rbrace: n.Body.Rbrace},
+	}
+}
+
+// rewriteGo turns `go f(a, b)` into
+//
+//	{ simF_ := f; simA0_ := a; simA1_ := b; simrt.Spawn(func() { simF_(simA0_, simA1_) }, site) }
+//
+// (function value and arguments are evaluated by the parent at the go
+// statement, as in Go; constants and nil stay inline so they keep their
+// untyped meaning). `go func() {...}()` becomes simrt.Spawn(func() {...}, site).
+func rewriteGo(info *types.Info, fset *token.FileSet, n *ast.GoStmt, tmp *int) ast.Stmt {
+	call := n.Call
+	s := add("R6", fset, n.Pos(), "go statement")
+	if fl, ok := ast.Unparen(call.Fun).(*ast.FuncLit); ok && len(call.Args) == 0 {
+		return &ast.ExprStmt{X: simCall("Spawn", fl, lit(s))}
+	}
+	*tmp++
+	var pre []ast.Stmt
+	fv := ast.NewIdent(fmt.Sprintf("simF%d_", *tmp))
+	pre = append(pre, &ast.AssignStmt{Lhs: []ast.Expr{fv}, Tok: token.DEFINE, Rhs: []ast.Expr{call.Fun}})
+	var args []ast.Expr
+	for i, a := range call.Args {
+		tv := info.Types[a]
+		if tv.Value != nil || tv.IsNil() {
+			args = append(args, a)
+			continue
+		}
+		av := ast.NewIdent(fmt.Sprintf("simA%d_%d_", *tmp, i))
+		pre = append(pre, &ast.AssignStmt{Lhs: []ast.Expr{av}, Tok: token.DEFINE, Rhs: []ast.Expr{a}})
+		args = append(args, av)
+	}
+	inner := &ast.CallExpr{Fun: fv, Args: args, Ellipsis: call.Ellipsis}
+	if call.Ellipsis == token.NoPos {
+		inner.Ellipsis = token.NoPos
+	}
+	body := &ast.BlockStmt{List: []ast.Stmt{&ast.ExprStmt{X: inner}}}
+	spawn := &ast.ExprStmt{X: simCall("Spawn", &ast.FuncLit{Type: &ast.FuncType{Params: &ast.FieldList{}}, Body: body}, lit(s))}
+	return &ast.BlockStmt{List: append(pre, spawn)}
+}
+
+// rewriteSelect turns a select statement into
+//
+//	{ simK0_ := simrt.RecvCase(ch0); simK1_ := simrt.SendCase(ch1, v); simSel_ := simrt.Select(site, hasDefault, simK0_, simK1_)
+//	  [label:] switch simSel_.Index { case 0: x, ok := simrt.SelRecv2(simK0_, simSel_); body0  case 1: body1  default: bodyD } }
+//
+// break inside a clause leaves the switch exactly as it left the select;
+// continue and labels keep their targets.
+func rewriteSelect(fset *token.FileSet, n *ast.SelectStmt, label *ast.Ident, tmp *int) ast.Stmt {
+	s := add("R1", fset, n.Pos(), "select")
+	*tmp++
+	id := *tmp
+	selv := ast.NewIdent(fmt.Sprintf("simSel%d_", id))
+	var pre []ast.Stmt
+	var kases []ast.Expr
+	var clauses []ast.Stmt
+	hasDefault := "false"
+	idx := 0
+	for _, cs := range n.Body.List {
+		cc := cs.(*ast.CommClause)
+		if cc.Comm == nil {
+			hasDefault = "true"
+			clauses = append(clauses, &ast.CaseClause{Body: cc.Body})
+			continue
+		}
+		kv := ast.NewIdent(fmt.Sprintf("simK%d_%d_", id, idx))
+		var body []ast.Stmt
+		switch st := cc.Comm.(type) {
+		case *ast.SendStmt:
+			pre = append(pre, &ast.AssignStmt{Lhs: []ast.Expr{kv}, Tok: token.DEFINE, Rhs: []ast.Expr{simCall("SendCase", st.Chan, st.Value)}})
+		case *ast.ExprStmt: // case <-ch:
+			u := ast.Unparen(st.X).(*ast.UnaryExpr)
+			pre = append(pre, &ast.AssignStmt{Lhs: []ast.Expr{kv}, Tok: token.DEFINE, Rhs: []ast.Expr{simCall("RecvCase", u.X)}})
+		case *ast.AssignStmt: // case x := <-ch / x, ok := <-ch / x = <-ch
+			u := ast.Unparen(st.Rhs[0]).(*ast.UnaryExpr)
+			pre = append(pre, &ast.AssignStmt{Lhs: []ast.Expr{kv}, Tok: token.DEFINE, Rhs: []ast.Expr{simCall("RecvCase", u.X)}})
+			fn := "SelRecv1"
+			if len(st.Lhs) == 2 {
+				fn = "SelRecv2"
+			}
+			body = append(body, &ast.AssignStmt{Lhs: st.Lhs, Tok: st.Tok, Rhs: []ast.Expr{simCall(fn, kv, selv)}})
+			if st.Tok == token.DEFINE {
+				for _, l := range st.Lhs {
+					if li, ok := l.(*ast.Ident); ok && li.Name != "_" {
+						body = append(body, &ast.AssignStmt{Lhs: []ast.Expr{ast.NewIdent("_")}, Tok: token.ASSIGN, Rhs: []ast.Expr{ast.NewIdent(li.Name)}})
+					}
+				}
+			}
+		}
+		kases = append(kases, kv)
+		clauses = append(clauses, &ast.CaseClause{List: []ast.Expr{&ast.BasicLit{Kind: token.INT, Value: fmt.Sprint(idx)}}, Body: append(body, cc.Body...)})
+		idx++
+	}
+	args := append([]ast.Expr{lit(s), ast.NewIdent(hasDefault)}, kases...)
+	pre = append(pre, &ast.AssignStmt{Lhs: []ast.Expr{selv}, Tok: token.DEFINE, Rhs: []ast.Expr{simCall("Select", args...)}})
+	var sw ast.Stmt = &ast.SwitchStmt{Tag: &ast.SelectorExpr{X: selv, Sel: ast.NewIdent("Index")}, Body: &ast.BlockStmt{List: clauses}}
+	if label != nil {
+		sw = &ast.LabeledStmt{Label: label, Stmt: sw}
+	}
+	return &ast.BlockStmt{List: append(pre, sw)}
+}
+
 func rewriteFile(p *packages.Package, f *ast.File, simrtPath string) bool {
 	info := p.TypesInfo
 	fset := p.Fset
 	changed := false
 	tmp := 0
+	// container statements (go, select, range over map / channel) are decided on the way down, while the
+	// type information still matches the tree, and rebuilt on the way up, after their bodies were rewritten
+	// (astutil.Apply does not walk a replacement node)
+	pending := map[ast.Node]string{}
+	skip := map[ast.Node]bool{}
 
 	// containsSyncCall: does stmt (not descending into nested blocks or
 	// function literals) contain an R2 call?
@@ -342,16 +545,41 @@ func rewriteFile(p *packages.Package, f *ast.File, simrtPath string) bool {
 	astutil.Apply(f, func(c *astutil.Cursor) bool {
 		switch n := c.Node().(type) {
 		case *ast.GoStmt:
-			add("R5", fset, n.Pos(), "go statement")
+			if goRewritable(info, n) {
+				pending[n] = "go"
+			} else {
+				add("R5", fset, n.Pos(), "go statement (not simulated: builtin, conversion or multi-value argument)")
+			}
 		case *ast.SelectStmt:
-			add("R5", fset, n.Pos(), "select statement (channel operations inside are not simulated)")
-			return false
+			if !selectRewritable(n) {
+				add("R5", fset, n.Pos(), "select statement (not simulated)")
+				return false
+			}
+			pending[n] = "select"
+			// the communication of each clause is consumed by the select rewrite (on the way up);
+			// it must not be rewritten as a plain channel operation
+			for _, cs := range n.Body.List {
+				switch st := cs.(*ast.CommClause).Comm.(type) {
+				case *ast.SendStmt:
+					skip[st] = true
+				case *ast.ExprStmt:
+					skip[st], skip[ast.Unparen(st.X)] = true, true
+				case *ast.AssignStmt:
+					skip[st], skip[ast.Unparen(st.Rhs[0])] = true, true
+				}
+			}
 		case *ast.SendStmt:
+			if skip[n] {
+				return true
+			}
 			s := add("R1", fset, n.Pos(), "chan send")
 			c.Replace(&ast.ExprStmt{X: simCall("ChanSend", n.Chan, n.Value, lit(s))})
 			changed = true
 			return true
 		case *ast.AssignStmt:
+			if skip[n] {
+				return true
+			}
 			if len(n.Lhs) == 2 && len(n.Rhs) == 1 {
 				if u, ok := ast.Unparen(n.Rhs[0]).(*ast.UnaryExpr); ok && u.Op == token.ARROW {
 					s := add("R1", fset, u.Pos(), "chan receive (v, ok)")
@@ -368,7 +596,7 @@ func rewriteFile(p *packages.Package, f *ast.File, simrtPath string) bool {
 				}
 			}
 		case *ast.UnaryExpr:
-			if n.Op == token.ARROW {
+			if n.Op == token.ARROW && !skip[n] {
 				if t := info.TypeOf(n.X); t != nil {
 					if _, ok := t.Underlying().(*types.Chan); ok {
 						s := add("R1", fset, n.Pos(), "chan receive")
@@ -379,52 +607,13 @@ func rewriteFile(p *packages.Package, f *ast.File, simrtPath string) bool {
 				}
 			}
 		case *ast.RangeStmt:
-			t := info.TypeOf(n.X)
-			if t == nil {
-				return true
-			}
-			if _, isChan := t.Underlying().(*types.Chan); isChan {
-				add("R5", fset, n.Pos(), "range over channel (not simulated)")
-				return true
-			}
-			if _, ok := t.Underlying().(*types.Map); !ok {
-				if isNamed(t, "reflect", "Value") {
-					// range over reflect.Value is not valid Go; ignore
+			if t := info.TypeOf(n.X); t != nil {
+				if _, isChan := t.Underlying().(*types.Chan); isChan {
+					pending[n] = "chanrange"
+				} else if _, ok := t.Underlying().(*types.Map); ok {
+					pending[n] = "maprange"
 				}
-				return true
 			}
-			add("R3", fset, n.Pos(), "range over map")
-			tmp++
-			it := ast.NewIdent(fmt.Sprintf("simIt%d_", tmp))
-			key, val := n.Key, n.Value
-			if key == nil {
-				key = ast.NewIdent("_")
-			}
-			if val == nil {
-				val = ast.NewIdent("_")
-			}
-			tok := n.Tok
-			if tok != token.ASSIGN {
-				tok = token.DEFINE
-			}
-			kv := &ast.CallExpr{Fun: &ast.SelectorExpr{X: it, Sel: ast.NewIdent("KV")}}
-			var pre []ast.Stmt
-			isBlank := func(e ast.Expr) bool { id, ok := e.(*ast.Ident); return ok && id.Name == "_" }
-			if !(isBlank(key) && isBlank(val)) {
-				if tok == token.DEFINE && isBlank(key) && isBlank(val) {
-					tok = token.ASSIGN
-				}
-				pre = append(pre, &ast.AssignStmt{Lhs: []ast.Expr{key, val}, Tok: tok, Rhs: []ast.Expr{kv}})
-			}
-			// for it := simrt.Iter(m); it.Next(); { k, v := it.KV(); body }
-			loop := &ast.ForStmt{
-				For:  n.For,
-				Init: &ast.AssignStmt{Lhs: []ast.Expr{it}, Tok: token.DEFINE, Rhs: []ast.Expr{simCall("Iter", n.X)}},
-				Cond: &ast.CallExpr{Fun: &ast.SelectorExpr{X: it, Sel: ast.NewIdent("Next")}},
-				Body: &ast.BlockStmt{Lbrace: n.Body.Lbrace, List: append(pre, n.Body.List...), Rbrace: n.Body.Rbrace},
-			}
-			c.Replace(loop)
-			changed = true
 		case *ast.CallExpr:
 			if id, ok := ast.Unparen(n.Fun).(*ast.Ident); ok && id.Name == "close" && len(n.Args) == 1 {
 				if _, isBuiltin := info.Uses[id].(*types.Builtin); isBuiltin {
@@ -506,6 +695,40 @@ func rewriteFile(p *packages.Package, f *ast.File, simrtPath string) bool {
 		}
 		return true
 	}, func(c *astutil.Cursor) bool {
+		switch n := c.Node().(type) {
+		case *ast.GoStmt:
+			if pending[n] == "go" {
+				c.Replace(rewriteGo(info, fset, n, &tmp))
+				changed = true
+				return true
+			}
+		case *ast.SelectStmt:
+			if pending[n] == "select" {
+				if _, labeled := c.Parent().(*ast.LabeledStmt); labeled {
+					return true // rebuilt together with its label, one level up
+				}
+				c.Replace(rewriteSelect(fset, n, nil, &tmp))
+				changed = true
+				return true
+			}
+		case *ast.LabeledStmt:
+			if sel, ok := n.Stmt.(*ast.SelectStmt); ok && pending[sel] == "select" {
+				c.Replace(rewriteSelect(fset, sel, n.Label, &tmp))
+				changed = true
+				return true
+			}
+		case *ast.RangeStmt:
+			switch pending[n] {
+			case "chanrange":
+				c.Replace(rewriteChanRange(fset, n, &tmp))
+				changed = true
+				return true
+			case "maprange":
+				c.Replace(rewriteMapRange(fset, n, &tmp))
+				changed = true
+				return true
+			}
+		}
 		// R2 on the way up, for statements that sit directly in a block.
 		st, ok := c.Node().(ast.Stmt)
 		if !ok || c.Index() < 0 {
